@@ -640,6 +640,26 @@ func c18CheckWriterCore(p *Prog, r *Report, fn *ssa.Function, name string, cfg *
 		}}
 	may.Run()
 	bit := func(st uint64, b int) bool { return st&(1<<uint(b)) != 0 }
+	// a failing path-dependent obligation located after a branch the graph could not correlate with
+	// the path (an error variable merged from several calls) is not established: UNDECIDED
+	shaky := g.downstreamOfImprecise()
+	cfg.shaky = shaky
+	saidShaky := map[string]bool{}
+	pathCheck := func(nodes []*c18Node, cond bool, rule, construct, at, okMsg, badMsg string) {
+		if !cond {
+			for _, n := range nodes {
+				if shaky[n] {
+					if saidShaky[rule+construct] {
+						return
+					}
+					saidShaky[rule+construct] = true
+					r.Undecide("%s %s: %s — not established: the path passes a test of an error variable merged from several calls whose origin the check cannot tell", rule, construct, badMsg)
+					return
+				}
+			}
+		}
+		r.Check(cond, rule, construct, at, okMsg, badMsg)
+	}
 
 	// ---- W1: order of the steps ---------------------------------------------------
 	mustAtPub, _ := must.BeforeAll(pub.Nodes)
@@ -685,7 +705,7 @@ func c18CheckWriterCore(p *Prog, r *Report, fn *ssa.Function, name string, cfg *
 				r.Trivial(R.Order, construct, pos(o.Call), "NOTE only: "+msg)
 				return
 			}
-			r.Violation(R.Order, construct, pos(o.Call), msg)
+			pathCheck(pub.Nodes, false, R.Order, construct, pos(o.Call), "", msg)
 		}
 		switch unchecked[o] {
 		case "discarded":
@@ -727,7 +747,7 @@ func c18CheckWriterCore(p *Prog, r *Report, fn *ssa.Function, name string, cfg *
 		for _, o := range ops {
 			if under, self := c18Under(o.Path, vdir); under && !self && o.Kind == c18WriteKind {
 				st, _ := must.BeforeAll(o.Nodes)
-				r.Check(bit(st, mk.idx), R.Order, name+" "+o.desc()+" after version directory creation", pos(o.Call),
+				pathCheck(o.Nodes, bit(st, mk.idx), R.Order, name+" "+o.desc()+" after version directory creation", pos(o.Call),
 					"dominated by the success edge of the directory creation", "a file is written below the version directory on a path where the directory was not (successfully) created first")
 			}
 		}
@@ -747,7 +767,7 @@ func c18CheckWriterCore(p *Prog, r *Report, fn *ssa.Function, name string, cfg *
 		if under, _ := c18Under(o.Path, vdir); under && o != link {
 			st, reach := may.BeforeAll(o.Nodes)
 			if reach && bit(st, bPublished) {
-				r.Violation(R.Order, name+" "+o.desc()+" after publish", pos(o.Call), o.Fn+" acts on the version directory after it was renamed over the target: readers resolve the target to a directory that is still changing (partial set), or that is deleted")
+				pathCheck(o.Nodes, false, R.Order, name+" "+o.desc()+" after publish", pos(o.Call), "", o.Fn+" acts on the version directory after it was renamed over the target: readers resolve the target to a directory that is still changing (partial set), or that is deleted")
 			}
 		}
 	}
@@ -763,10 +783,10 @@ func c18CheckWriterCore(p *Prog, r *Report, fn *ssa.Function, name string, cfg *
 			nPrevRemove++
 			stMust, _ := must.BeforeAll(o.Nodes)
 			stMay, _ := may.BeforeAll(o.Nodes)
-			r.Check(bit(stMust, pub.idx), R.Prev, name+" "+o.desc()+" only after successful publish", pos(o.Call),
+			pathCheck(o.Nodes, bit(stMust, pub.idx), R.Prev, name+" "+o.desc()+" only after successful publish", pos(o.Call),
 				"dominated by the success edge of the publishing rename",
 				"the previous version directory can be removed before the target was switched away from it (or although the switch failed): the target then resolves to a deleted directory")
-			r.Check(!bit(stMay, bPrevStored), R.Prev, name+" "+o.desc()+" before prev is overwritten", pos(o.Call),
+			pathCheck(o.Nodes, !bit(stMay, bPrevStored), R.Prev, name+" "+o.desc()+" before prev is overwritten", pos(o.Call),
 				"prev still names the previous version when it is removed",
 				"prev is overwritten before this removal: what gets deleted is the version directory that was just published, the target dangles")
 		}
@@ -797,7 +817,7 @@ func c18CheckWriterCore(p *Prog, r *Report, fn *ssa.Function, name string, cfg *
 				r.Undecide("%s: %s — but whether the return at %s can yield nil is not established", construct, badMsg, at)
 				return
 			}
-			r.Check(cond, rule, construct, at, okMsg, badMsg)
+			pathCheck([]*c18Node{n}, cond, rule, construct, at, okMsg, badMsg)
 		}
 		if !n.uncertain {
 			nNil++
@@ -1086,6 +1106,14 @@ func c18CheckLoop(g *c18Graph, r *Report, name string, cfg *c18Cfg, loop *c18Loo
 			why = "the loop over the file map can be left before all entries were written (break) and the publishing rename is still reached: a partial set gets published"
 		} else {
 			why = "the publishing rename can be reached without the loop over the file map having run to its end (publish before/inside the loop): the target shows a partial set"
+		}
+	}
+	if !iterOK {
+		for _, n := range pub.Nodes {
+			if cfg.shaky[n] {
+				r.Undecide("%s %s: %s — not established: the path passes a test of an error variable merged from several calls whose origin the check cannot tell", R.Complete, construct, why)
+				return
+			}
 		}
 	}
 	r.Check(iterOK, R.Complete, construct, pos, "each iteration writes its entry successfully or leaves without publishing; the rename is reached only through the loop's end", why)
